@@ -552,7 +552,7 @@ class HostConnection(object):
                 self._trash = set()
 
         if trash_conns is not None:
-            for conn in self._trash:
+            for conn in trash_conns:
                 conn.close()
 
     def _set_keyspace_for_all_conns(self, keyspace, callback):
